@@ -16,6 +16,15 @@ git checkout -q -- .
 echo "--- demo WITHOUT mutation"; cargo test -p tarpc --features full --offline --test $name "$@" 2>&1 | grep "test result\|error" | head -5
 rm -f tarpc/tests/$DEMO
 mkdir -p $DST && cp $OUT/patch.diff $OUT/$DEMO $DST/ && cp $OUT/meta.json $DST/agent_meta.json
-echo "--- registered quick check with the mutation applied to /repo"
-cd /repo && git apply $OUT/patch.diff && cd /verif && ( python3 run.py $PID --tier quick 2>&1 | grep -v "^warning" | grep "FAILED\|^OK\|INCONCL\|VIOL\|KNOWN\|native replay\|real codec" | head -30 ); echo "check_exit=${PIPESTATUS[0]}"
-git -C /repo checkout -q -- . ; git -C /repo status --short | head -3
+echo "--- registered quick check with the mutation applied"
+# default: apply to /repo, run, revert (as the brief prescribes). With EVAL_WT=<worktree of /repo HEAD>
+# the patch is applied there and the check reads it through VERIF_REPO, so that /repo stays untouched
+# while other checks are running.
+CHK=${CHECK_AS:-$PID}
+if [ -n "${EVAL_WT:-}" ]; then
+  git -C $EVAL_WT checkout -q -- . && git -C $EVAL_WT apply $OUT/patch.diff && cd /verif && ( VERIF_REPO=$EVAL_WT python3 run.py $CHK --tier quick 2>&1 | grep -v "^warning" | grep "FAILED\|^OK\|INCONCL\|VIOL\|KNOWN\|native replay\|real codec" | head -30 ); echo "check_exit=${PIPESTATUS[0]}"
+  git -C $EVAL_WT checkout -q -- .
+else
+  cd /repo && git apply $OUT/patch.diff && cd /verif && ( python3 run.py $CHK --tier quick 2>&1 | grep -v "^warning" | grep "FAILED\|^OK\|INCONCL\|VIOL\|KNOWN\|native replay\|real codec" | head -30 ); echo "check_exit=${PIPESTATUS[0]}"
+  git -C /repo checkout -q -- . ; git -C /repo status --short | head -3
+fi
